@@ -71,16 +71,57 @@ def enc_reg(op):
                     fb=formula(op["fb"]), tb=formula(op["tb"]), dc=str(sym(op.get("dc"))))
     kw = op["kw"]
     vu = kw.get("valid_units")
-    return dict(k="cat", c=sarg(op["c"]), qt=osym(kw.get("quantity_type")),
-                vu=None if vu is None else [str(sym(u)) for u in vu], ov=bool(kw.get("override", False)),
-                du=osym(kw.get("default_unit")), dv=onum(kw.get("default_value")), min=onum(kw.get("min_value")),
-                max=onum(kw.get("max_value")), minx=bool(kw.get("is_min_exclusive", False)),
-                maxx=bool(kw.get("is_max_exclusive", False)), cap=str(sym(kw.get("caption", ""))),
-                **{"from": osym(kw.get("from_category"))})
+    o = dict(k="cat", c=sarg(op["c"]), qt=osym(kw.get("quantity_type")),
+             vu=None if vu is None else [str(sym(u)) for u in vu], ov=bool(kw.get("override", False)),
+             du=osym(kw.get("default_unit")), dv=onum(kw.get("default_value")), min=onum(kw.get("min_value")),
+             max=onum(kw.get("max_value")), minx=bool(kw.get("is_min_exclusive", False)),
+             maxx=bool(kw.get("is_max_exclusive", False)), cap=str(sym(kw.get("caption") or "")),
+             **{"from": osym(kw.get("from_category"))})
+    # EXPLICIT None for the exclusivity flags / the caption (with from_category: inherited from the source category)
+    for key, field in (("is_min_exclusive", "minxN"), ("is_max_exclusive", "maxxN"), ("caption", "capN")):
+        if key in kw and kw[key] is None:
+            o[field] = True
+    return o
+
+
+def enc_expr(e):
+    """an arithmetic expression over Scalars as plain data: ["s", category, unit, x] = Scalar(x, unit, category),
+    ["u", unit, x] = Scalar(x, unit), [op, a, b] with op in mul / div / add / sub"""
+    if e[0] == "s":
+        return ["s", str(sym(e[1])), str(sym(e[2])), qstr(exact(e[3]))]
+    if e[0] == "u":
+        return ["u", str(sym(e[1])), qstr(exact(e[2]))]
+    return [e[0], enc_expr(e[1]), enc_expr(e[2])]
+
+
+def show_expr(e):
+    if e[0] == "s":
+        return "Scalar(%r, %r, %r)" % (e[3], e[2], e[1])
+    if e[0] == "u":
+        return "Scalar(%r, %r)" % (e[2], e[1])
+    return "(%s %s %s)" % (show_expr(e[1]), {"mul": "*", "div": "/", "add": "+", "sub": "-"}[e[0]], show_expr(e[2]))
+
+
+def eval_expr(e):
+    from barril.units import Scalar
+
+    if e[0] == "s":
+        return Scalar(e[3], e[2], e[1])
+    if e[0] == "u":
+        return Scalar(e[2], e[1])
+    a, b = eval_expr(e[1]), eval_expr(e[2])
+    if e[0] == "mul":
+        return a * b
+    if e[0] == "div":
+        return a / b
+    return a + b if e[0] == "add" else a - b
 
 
 def enc_query(q):
     o = dict(q=q["q"])
+    if q["q"] == "arith":
+        o["e"] = enc_expr(q["e"])
+        return o
     for key, v in q.items():
         if key in ("c", "u", "v", "cq", "c1", "u1", "c2", "u2", "qt"):
             o[key] = str(sym(v))
@@ -222,6 +263,21 @@ def ask(db, q):
             return dict(ok=dict(cat=i.quantity_type, unit=i.unit))
         if k == "getValue":
             return dict(ok=dict(x=float(Scalar(q["x"], q["u"], q["c"]).GetValue(q["v"])).hex()))
+        if k == "defaultValue":
+            return dict(ok=dict(x=float(db.GetDefaultValue(q["c"])).hex()))
+        if k == "defaultUnit":
+            return dict(ok=dict(s=db.GetDefaultUnit(q["c"])))
+        if k == "findUnitCase":
+            return dict(ok=dict(s=db.FindUnitCase(q["c"], q["u"])))
+        if k == "findSimilar":
+            return dict(ok=dict(l=list(db.FindSimilarUnitMatches(q["u"]))))
+        if k == "checkValueFor":
+            db.CheckValueForCategory(q["c"], q["x"], q["u"])
+            return dict(ok=None)
+        if k == "arith":
+            # value-bearing arithmetic on (derived) operands; the model's answer is "what a fresh database answers"
+            r = eval_expr(q["e"])
+            return dict(ok=dict(describe(r.GetQuantity()), x=float(r.GetValue()).hex()))
         # --- asked on the real code only (oracle / search of C15; the model has no such query kinds)
         if k == "isValidU":
             return dict(ok=dict(b=bool(Scalar(q["x"], q["u"]).IsValid())))
@@ -371,8 +427,8 @@ def cmp_answer(q, io, mo, limits=None):
     for key in ("cat", "unit", "s"):
         if (key in a) != (key in b) or (key in a and a[key] != unsym(int(b[key]))):
             return "%s differs: impl=%r model=%r" % (key, a.get(key), unsym(int(b[key])) if key in b else None)
-    if q["q"] == "quantityTypes" and "l" in a and "l" in b:
-        # GetQuantityTypes() sorts; the model lists the keys of `quantity_types`
+    if q["q"] in ("quantityTypes", "findSimilar") and "l" in a and "l" in b:
+        # GetQuantityTypes() / FindSimilarUnitMatches() sort; the model lists the keys in dictionary order
         if a["l"] != sorted(unsym(int(u)) for u in b["l"]):
             return "list differs: impl=%r model(sorted)=%r" % (a["l"], sorted(unsym(int(u)) for u in b["l"]))
         return None
@@ -397,7 +453,7 @@ def cmp_answer(q, io, mo, limits=None):
     if ("x" in a) != ("x" in b):
         return "shape"
     if "x" in a:
-        if q["q"] == "createC":
+        if q["q"] in ("createC", "defaultValue"):
             if not _num_same(a["x"], b["x"]):
                 return "default value differs: impl=%r model=%r" % (float.fromhex(a["x"]), b["x"])
         elif not _num_eq(a["x"], b["x"], b["M"]):
